@@ -81,8 +81,8 @@ CHECKS = {
  'C11': dict(
    technique='Coq proof (per-node conditions established by induction over flatten; load = inverse of dump under those conditions) + extracted-model correspondence with registry changes between dump and load',
    text='Theorems: for every treespec flatten produces, loading its pickled state under the same registry returns the identical treespec (all node fields incl. path entries, registration, counters and original keys; none_is_leaf; namespace); '
-        'a custom type not registered in the recorded namespace nor globally makes loading raise. The run dumps with protocols 2..HIGHEST, copy and deepcopy and loads under the same, a missing, a re-made or a moved registration in the same process (1500 cases) and in a freshly spawned interpreter, '
-        'comparing the loaded node array, == with the original and with a fresh flatten, and the unflattened tree with the model; the oracle checks equality, hash, repr, paths, accessors, entries, children, namespace and exact unflatten for the same-registry case.',
+        'a custom type not registered in the recorded namespace nor globally makes loading raise; THE VALIDATION ON LOAD (fix F16) is SOUND — every accepted node array decodes to a well-formed structured treespec with consistent payloads, the condition under which the engine\'s unchecked index walks stay in bounds — and COMPLETE — the array of every such treespec, in particular of every flattened tree, is accepted, so no valid pickle is rejected (C11_validate_sound / _complete / C11_flatten_validates). The run dumps with protocols 2..HIGHEST, copy and deepcopy and loads under the same, a missing, a re-made or a moved registration in the same process (1500 cases) and in a freshly spawned interpreter, '
+        'comparing the loaded node array, == with the original and with a fresh flatten, and the unflattened tree with the model; it also (cmd 23) loads 1.5 k forged node arrays (edits of arity, num_leaves, num_nodes, key lists, kinds, dropped / duplicated nodes) through __setstate__ in forked children and compares accepted / RuntimeError / InternalError with the model\'s from_pickle; the oracle checks equality, hash, repr, paths, accessors, entries, children, namespace and exact unflatten for the same-registry case.',
    note=TB + 'The byte-level pickle encoding is Python\'s and is not modelled. Known finding K2: protocols 0 and 1 raise TypeError in dumps (pybind11), although the property quantifies over all protocols.',
    design='§7 C11'),
  'C12': dict(
